@@ -129,6 +129,31 @@ Proof. vm_compute. reflexivity. Qed.
 Theorem timeout_handler_restores : forall o, timeout_handler_ok (exec eff o None gen_execute_with_timeout) = true.
 Proof. exact (forall_paths eff timeout_handler_ok gen_execute_with_timeout timeout_paths_ok). Qed.
 
+(* ---------------------------------------------------------------- without trusting the recording code *)
+(* _capture_exception builds the traceback and the feedback from student objects; the skeletons gen_*_rec let it raise any
+   Exception.  Restoration does not depend on it: it has happened before the failure is recorded. *)
+Lemma execute_rec_paths_balanced : forallb c05_ok (paths eff None gen_execute_rec) = true.
+Proof. vm_compute. reflexivity. Qed.
+Theorem execute_restores_even_if_recording_fails : forall o, balanced (snd (exec eff o None gen_execute_rec)) = true.
+Proof. exact (forall_paths eff c05_ok gen_execute_rec execute_rec_paths_balanced). Qed.
+
+Definition timeout_restored_ok (p : outcome * list eff) : bool :=
+  match snd p with
+  | [] => true                                   (* no timeout: the thread's own execution did the bookkeeping *)
+  | t => match run_eff (mkP 1 1 0) t with Some s => pstate_eqb s p0 | None => false end
+  end.
+Lemma timeout_rec_paths_ok : forallb timeout_restored_ok (paths eff None gen_execute_with_timeout_rec) = true.
+Proof. vm_compute. reflexivity. Qed.
+Theorem timeout_handler_restores_even_if_recording_fails :
+  forall o, timeout_restored_ok (exec eff o None gen_execute_with_timeout_rec) = true.
+Proof. exact (forall_paths eff timeout_restored_ok gen_execute_with_timeout_rec timeout_rec_paths_ok). Qed.
+
+(* the recording can really fail in these skeletons: there is a path that raises AFTER a capture was attempted *)
+Example rec_has_failing_capture_path :
+  existsb (fun p => match fst p with Raised _ => Nat.ltb 0 (length (snd p)) | _ => false end)
+          (paths eff None gen_execute_with_timeout_rec) = true.
+Proof. vm_compute. reflexivity. Qed.
+
 (* non-vacuity: the skeleton really has a propagating BaseException path and a contained Exception path *)
 Example execute_has_base_path :
   existsb (fun p => match fst p with Raised EBase => true | _ => false end) (paths eff None gen_execute) = true
